@@ -128,7 +128,7 @@ def gen(rng, t):
         if rng.random() < 0.3:
             up['restarts.increase_npt'] = True
             up['restarts.increase_npt_amt'] = 1
-            up['restarts.max_npt'] = kw['npt'] + 2
+            up['restarts.max_npt'] = min(kw['npt'] + 2, max(kw['npt'], (n + 1) * (n + 2) // 2))     # beyond (n+1)(n+2)/2 a hard restart trips the coordinate initialiser's assert (observation O14)
         if rng.random() < 0.3:
             up['restarts.soft.move_xk'] = bool(rng.integers(0, 2))
         if rng.random() < 0.3:
